@@ -61,7 +61,7 @@ fn eq_json<T: Queryable>(lhs: &T, rhs: &T) -> bool {
     let rhs_f64 = rhs.as_f64().or_else(|| rhs.as_i64().map(|v| v as f64));
 
     if let (Some(lhs_num), Some(rhs_num)) = (lhs_f64, rhs_f64) {
-        (lhs_num - rhs_num).abs() < f64::EPSILON
+        lhs_num == rhs_num
     } else {
         lhs == rhs
     }
